@@ -154,7 +154,8 @@ class Swarm:
         self.p_chance_fail = rng.choice([0.0, 0.15, 0.25, 0.5])
         self.p_post_terminal = rng.choice([0.0, 0.3, 1.0])
         self.p_reconstruct = rng.choice([0.0, 0.0, 0.01, 0.03])
-        self.exotic_enc = ("C10" in props) or rng.random() < 0.15
+        self.exotic_enc = bool({"C10", "C11"} & set(props)) or \
+            rng.random() < 0.15
 
 
 class EnvSim:
@@ -583,8 +584,6 @@ class EnvSim:
             kinds += ["readable", "roundtrip"]
         if "C10" in self.props:
             kinds.append("contains")
-        if not kinds:
-            kinds = ["goal", "mask", "readable", "roundtrip", "contains"]
         kinds.append("readonly")
         what = wl.choice(kinds)
         src = "cur"
